@@ -1,5 +1,5 @@
 (* drv_c04.ml — runs the extracted evaluator of the index-symmetric term language on one measure.
-   line:  m <id> <k> <A : mat q> <ci : list q> <ks : list q>   |   g <idx> <A> <ci> <ks>   |   gcount   |   gsame <idx> <id> <k>
+   line:  m <id> <k> <A : mat q> <ci : list q> <ks : list q>   |   g <idx> <A> <ci> <ks>   |   gcount   |   gfp   |   gsame <idx> <id> <k>
    The abstract primitives (0: sqrt, 1: cbrt) are interpreted through binary64 and converted back to a dyadic
    rational; only measures compared with tolerance use them. *)
 let rec pos_to_float p = match p with XH -> 1.0 | XO q -> 2.0 *. pos_to_float q | XI q -> 2.0 *. pos_to_float q +. 1.0
@@ -30,6 +30,7 @@ let dispatch = function
     let a = next_mat next_q in let ci = next_list next_q in let ks = next_list next_q in
     p_mat p_q (run_gen prims idx a ci ks)
   | "gcount" -> p_nat gen_count
+  | "gfp" -> p_z gen_fingerprint
   | "gsame" ->  (* gsame <idx> <id> <k> : is the idx-th generated program syntactically the hand-written term (id, k)? *)
     let idx = next_nat () in let id = next_nat () in let k = next_nat () in
     p_bool (gen_same_as_hand idx id k)
